@@ -451,6 +451,11 @@ def hunt4_rules(chk, repo):
 
 def hunt5_rules(chk, repo):
     """Rule written after the fifth defect hunt (F286)."""
+    # (round 7, seed C09-7) the end of an HTTP chunk whose last piece decoded to nothing wakes a reader without data: every wait of the
+    # stream re-tests its condition in a loop, or read(n) / iter_chunked() hand out b"" - the end-of-body value - in the middle of a
+    # compressed chunked body (rule shared with C08)
+    from rules import C08
+    chk.include(C08.run, ("C08.waitloop",), ("C08.waitloop", "C09.waitloop"))
     MP = "aiohttp/multipart.py"
     # ---- C09.part.keep: bytes that read() has taken out of the stream are not lost when the call is interrupted ----------------------------------------
     # read() moves what it has collected into a local (`data = self._read_partial; self._read_partial = bytearray()`); from there to the
